@@ -152,6 +152,7 @@ type RunOpts struct {
 	FnRe        *regexp.Regexp
 	Timeout     int
 	Portfolio   []string
+	SkipRetry   func(fn, ob string) bool
 	Jobs        int
 	KeepDir     string
 	MaxPaths    int
@@ -263,7 +264,7 @@ func runVerification(o RunOpts) (*RunResult, error) {
 	}
 	rr.Dir = dir
 	t1 := time.Now()
-	discharge(rr.Results, SolveOpts{Dir: dir, Timeout: o.Timeout, Portfolio: o.Portfolio, Jobs: o.Jobs, Kinds: o.Kinds, CrossCheck: o.CrossCheck, Props: o.Props})
+	discharge(rr.Results, SolveOpts{Dir: dir, Timeout: o.Timeout, Portfolio: o.Portfolio, Jobs: o.Jobs, Kinds: o.Kinds, CrossCheck: o.CrossCheck, Props: o.Props, SkipRetry: o.SkipRetry})
 	rr.SolveSeconds = time.Since(t1).Seconds()
 	return rr, nil
 }
